@@ -25,3 +25,4 @@ def run(col, configs, tier):
         guarded(col, S.rule_lookaround_kind, facts)
         guarded(col, S.rule_skip_zeros_unit, facts)
         guarded(col, X.rule_raw_digit_scans, facts)
+        guarded(col, X.rule_grammar_guards, facts)
